@@ -161,11 +161,20 @@ class Loader:
             mod.__version__ = "symbolic"
             return mod
         code = compile(src, path, "exec")
+        # dataclasses look their module up in sys.modules while the class body is processed: expose the symbolic
+        # module under its name for the duration of the exec only (the real module, if imported, is put back)
+        saved = sys.modules.get(name, None)
+        sys.modules[name] = mod
         try:
             exec(code, mod.__dict__)
         except BaseException:
             del self.modules[name]
             raise
+        finally:
+            if saved is not None:
+                sys.modules[name] = saved
+            else:
+                sys.modules.pop(name, None)
         return mod
 
     def function_span(self, relpath, funcname):
